@@ -79,6 +79,11 @@ CHECKS = {
          "TLC checks TerminiOncePerEnd for every configuration in the bound (amino runs with OXT anywhere, nucleotide runs, hetero tails, caps, two chains, cyclic flag, neutral options); the real code's flags on each concretised configuration must equal the model's (zero drift) and satisfy the clauses; pipeline runs of every residue type and named variant at each position, DNA/RNA strands, multi-chain inputs with numbering offsets, three peptides under one chain id, neutral termini and the cyclic peptide are judged on ChargeIsFormal, StrandCharge, WaterNeutral, TotalIntegral.",
          "Formal-charge table is chemistry written into the trace spec; only fully parameterised residues are judged; unit-level cyclic inputs fake N-C closeness; concretisation and residue matching are harness code.",
          "DESIGN.md 6/C02", ["Termini", "MC_Termini", "TerminiTrace"]),
+ "C01": ("model_checking",
+         "TLA+ spec ForceField (DAT rows, cumulative .names sections with residue/$group/atom aliasing, lookup): TLC computes the parameter map from the files of the current tree with the spec's actions; the real Forcefield.map must equal it; every atom of every corpus run is an assign record judged by TLC (ForceFieldTrace)",
+         "For the six built-in force fields, the repository's user pair and 40-300 generated user DAT/names pairs, TLC replays LoadRow/Section on the files' own content (independent readers; regex match sets by Python's re) and requires the real map to be identical entry by entry (charge, radius, native names); then each atom of the generated corpus (every residue type and named variant at every position, neutral termini, DNA/RNA strands, waters, user force fields incl. two different pairs in one process) must use the state-qualified key the generator's ground truth prescribes, be written with exactly the row's charge and radius, and be omitted and reported when the map has no entry.",
+         "Python's re and pdb2pqr's topology loader (canonical names) are trusted; comparison at the 4 decimals written; HIS tautomer keys and CYS in real structures are not asserted.",
+         "DESIGN.md 6/C01", ["ForceField", "ForceFieldTrace"]),
 }
 
 NOT_YET = "check not built yet (build round in progress); planned per DESIGN.md section 6"
